@@ -6,12 +6,15 @@ From Coq Require Import String List.
 From GS Require Import Race RacePolicy AccessTable.
 Import ListNotations.
 Open Scope string_scope.
-Definition c17_failures_all := Eval vm_compute in failures policy_all [] table.
-Definition c17_failures_with_exceptions := Eval vm_compute in failures policy_all exceptions table.
+(* against the EFFECTIVE policy: declared entries first, then the disciplines inferred for the fields they do not name *)
+Definition c17_failures_all := Eval vm_compute in failures (effective policy_all table) [] table.
+Definition c17_failures_with_exceptions := Eval vm_compute in failures (effective policy_all table) exceptions table.
+Definition c17_inferred := Eval vm_compute in inferred_report policy_all table.
 Definition c17_exceptions := Eval vm_compute in map (fun k : fkey => fst k +++ "." +++ snd k) exceptions.
 Definition c17_stale_policy := Eval vm_compute in stale_policy policy_all table.
 Definition c17_hbvia := Eval vm_compute in hbvia_entries.
 Print c17_failures_all.
+Print c17_inferred.
 Print c17_failures_with_exceptions.
 Print c17_exceptions.
 Print c17_stale_policy.
